@@ -478,6 +478,9 @@ def rule_error_propagation(prog, res, closure, side="decode", floor=None):
                             rv = s["rv"]
                             if rv["k"] == "discr" and rv["place"]["local"] in holders:
                                 used = True
+                            if rv["k"] == "discr" and rv["place"]["local"] in wrapped and rv["place"]["proj"] and \
+                                    all(x["k"] in ("downcast", "field") for x in rv["place"]["proj"]):
+                                used = True         # match on the Result inside Some(..) (`Option<Result>::transpose` spelled out)
                             if rv["k"] == "use" and rv["op"]["k"] in ("copy", "move") and rv["op"]["place"]["local"] in holders and s["place"]["local"] == 0:
                                 used = True
                     tt = blk["term"]
